@@ -3,5 +3,5 @@
 cd "$(dirname "$0")/.."; . ./env.sh
 d=$(mktemp -d /tmp/nzshow-XXXX); trap 'rm -rf "$d"' EXIT
 rsync -a --exclude .git /repo/ "$d/"; git -C "$d" apply --whitespace=nowarn "$1" || exit 2
-rm -rf /tmp/nzdump; MCPCHECK_NZ_DEBUG=1 MCPCHECK_NZ_DUMP=/tmp/nzdump bin/mcpcheck -property $2 -repo "$d" -no-evidence -whole 2>&1 | grep -v "^NZ-SKIP\|    used at" | cut -c1-400
+rm -rf /tmp/nzdump; MCPCHECK_NZ_DEBUG=1 MCPCHECK_NZ_DUMP=/tmp/nzdump ${MCPCHECK_BIN:-bin/mcpcheck} -property $2 -repo "$d" -no-evidence -whole 2>&1 | grep -v "^NZ-SKIP\|    used at" | cut -c1-400
 ls /tmp/nzdump 2>/dev/null
